@@ -370,4 +370,46 @@ example : coerceLit (fun _ => none) [] (.scalar .string) (CV.toLit (.enum "RED")
     ∧ coerceVar (fun _ => none) (.scalar .string) (CV.toJson (.enum "RED")) true = some (.str "RED") := by
   exact ⟨by rfl, by rfl⟩
 
+
+/-! ## nested_variable -/
+
+/-- **nested_variable.** A literal with variables anywhere inside it — at the top, in list items,
+    in input-object fields (also of a single object given for a list), at any depth — coerces
+    exactly like the literal in which every variable is replaced by the value the client
+    supplied for it (`inline`; an unset variable is a null item / an absent field): the same Go
+    value, or both fail. `Nested` says that each variable's runtime value is the variable route's
+    coercion of the supplied value at the type of the variable's position. Needs patch 02 (null
+    and unset variables) and patch 03. -/
+theorem nested_variable (P : Parse) (σ : Supplied) (vars : Vars) (T : Ty) (l : Lit)
+    (h : Nested P σ vars T false l) :
+    coerceLit P vars T l true = coerceLit P [] T (inline σ l) true := by
+  simpa using nested_lit P σ vars T l false h
+
+-- non-vacuity: F-05b's and F-05d's requests. `[$v, $w]` for `[Int]` with v ↦ 7 and w unset is `[7, null]`;
+example :
+    let σ : Supplied := [("v", .int 7)]
+    let vars : Vars := [("v", .int 7)]
+    Nested (fun _ => none) σ vars (.list (.scalar .int)) false (.list [.var "v", .var "w"])
+    ∧ coerceLit (fun _ => none) vars (.list (.scalar .int)) (.list [.var "v", .var "w"]) true
+        = some (.list [.int 7, .nil])
+    ∧ inline σ (.list [.var "v", .var "w"]) = .list [.int 7, .null] := by
+  refine ⟨?_, by rfl, by rfl⟩
+  simp only [Nested]
+  intro x hx
+  simp only [List.mem_cons, List.not_mem_nil, or_false] at hx
+  rcases hx with rfl | rfl
+  · simp only [Nested, VarStandsFor]
+    exact ⟨by rfl, by rfl, ⟨.int 7, by rfl, by rfl⟩, by intro _ h; simp [isListish] at h⟩
+  · simp only [Nested, VarStandsFor]; rfl
+-- … and with an explicit null for `$v` at `[Int!]` both spellings fail (as found: `[nil]`).
+example : coerceLit (fun _ => none) [("v", .nil)] (.list (.nonNull (.scalar .int))) (.list [.var "v"]) true = none
+    ∧ coerceLit (fun _ => none) [] (.list (.nonNull (.scalar .int))) (.list [.null]) true = none := by
+  exact ⟨by rfl, by rfl⟩
+-- the item side condition of `VarStandsFor` is necessary: `$x: [Int]` accepts the single item 5
+-- (→ [5]) by the list rule applied to the variable's own value, the item 5 of `[5]` for `[[Int]]` does not
+example : coerceLit (fun _ => none) [("x", .list [.int 5])] (.list (.list (.scalar .int))) (.list [.var "x"]) true
+      = some (.list [.list [.int 5]])
+    ∧ coerceLit (fun _ => none) [] (.list (.list (.scalar .int))) (.list [.int 5]) true = none := by
+  exact ⟨by rfl, by rfl⟩
+
 end ApiFu.C05
